@@ -70,9 +70,12 @@ PutAll(W, a, b, vals, fr) ==
   ELSE PutAll(PutMsg(W, a, b, Head(vals), Head(fr).iv, Head(fr).line, Head(fr).tag), a, b, Tail(vals), Tail(fr))
 
 --------------------------------------------------------------------------
-TInit == l = 1 /\ w = W0 /\ uni = FALSE
+TInit == l = 1 /\ w = WInit(MkCfg(2, "select", FALSE, FALSE, FALSE, 32, 16, 4096)) /\ uni = FALSE
 
-TReset == IsEv("Reset") /\ w' = W0 /\ uni' = Ev.uni /\ l' = l + 1
+TReset ==
+  /\ IsEv("Reset")
+  /\ w' = WInit(MkCfg(Ev.n, Ev.variant, Ev.auth, Ev.enc, Ev.chunked, Ev.maclen, Ev.blk, Ev.bufsz))
+  /\ uni' = Ev.uni /\ l' = l + 1
 
 TSend ==
   /\ IsEv("Send")
@@ -89,7 +92,6 @@ TSend ==
              /\ Ev.bytes = <<>> /\ ~Ev.arr
              /\ 2 * (Ev.nd[1] + 1) >= BUFSZ
              /\ UNCHANGED w
-  /\ (Ev.ok \/ TRUE)
   /\ (~Ev.arr /\ 2 * (Ev.nd[1] + 1) < BUFSZ => Ev.ok)        \* what fits is accepted
   /\ l' = l + 1 /\ UNCHANGED uni
 
@@ -133,10 +135,10 @@ TRecvArr ==
         /\ w' = r.W
   /\ l' = l + 1 /\ UNCHANGED uni
 
-\* end of an execution: the relay holds nothing, every socket is empty
+\* end of an execution: the relay holds nothing (a stopped link may leave octets unread in its socket)
 TQuiesce ==
   /\ IsEv("Quiesce")
-  /\ \A a \in Party, b \in Party : w.wire[a][b] = <<>> /\ w.sock[a][b] = <<>>
+  /\ \A a \in Party, b \in Party : w.wire[a][b] = <<>>
   /\ l' = l + 1 /\ UNCHANGED <<w, uni>>
 
 TNext == TReset \/ TSend \/ TMove \/ TFault \/ TRecv \/ TRecvArr \/ TQuiesce
